@@ -69,6 +69,9 @@ impl Property for C01 {
             "q_while_ingestion_paused",
         ]
     }
+    fn fuzz_sequences(&self) -> Vec<(&'static str, usize)> {
+        vec![("/ops", 50)]
+    }
     fn run(&self, case: &Case01) -> Outcome {
         let budgets = case.budgets.clone();
         let case = &case.hist;
